@@ -51,6 +51,28 @@ impl AsyncDerivedReadyFuture {
     }
 }
 
+/// Registers `waker` to be woken when loading finishes.
+///
+/// `notify_subs` first stores `loading = false` and then drains `wakers` under its lock.
+/// The caller has seen `loading == true` a moment ago; if loading has finished on another
+/// thread since then, the drain may already have happened and a waker pushed now would
+/// never be woken. So `loading` is checked again under the `wakers` lock: either it is
+/// still `true` (the drain has not started, and will find this waker), or the task is
+/// woken right away so that it polls again and sees the value.
+fn park_if_still_loading(
+    loading: &AtomicBool,
+    wakers: &RwLock<Vec<Waker>>,
+    waker: &Waker,
+) {
+    let mut wakers = wakers.write().or_poisoned();
+    if loading.load(Ordering::Relaxed) {
+        wakers.push(waker.clone());
+    } else {
+        drop(wakers);
+        waker.wake_by_ref();
+    }
+}
+
 impl Future for AsyncDerivedReadyFuture {
     type Output = ();
 
@@ -62,7 +84,7 @@ impl Future for AsyncDerivedReadyFuture {
         if self.loading.load(Ordering::Relaxed) {
             #[cfg(leptos_verif)]
             crate::verif_yield("await:loaded");
-            self.wakers.write().or_poisoned().push(waker.clone());
+            park_if_still_loading(&self.loading, &self.wakers, waker);
             Poll::Pending
         } else {
             Poll::Ready(())
@@ -143,7 +165,7 @@ where
             (true, _) => {
                 #[cfg(leptos_verif)]
                 crate::verif_yield("await:loaded");
-                self.wakers.write().or_poisoned().push(waker.clone());
+                park_if_still_loading(&self.loading, &self.wakers, waker);
                 Poll::Pending
             }
             (_, Poll::Pending) => Poll::Pending,
@@ -211,7 +233,7 @@ where
             (true, _) => {
                 #[cfg(leptos_verif)]
                 crate::verif_yield("await:loaded");
-                self.wakers.write().or_poisoned().push(waker.clone());
+                park_if_still_loading(&self.loading, &self.wakers, waker);
                 Poll::Pending
             }
             (_, Poll::Pending) => Poll::Pending,
